@@ -227,7 +227,7 @@ def run_path(repo, registry, func: VFunc, contract, prefix, feas_ms):
             for en in exc_names:
                 cond = it.truthy(it.eval_contract_fn(contract, "raises_" + en, dict(bound), fr.entry_heap, fr.entry_env, in_old_state=True))
                 path.oblige(f"{fr.qualname}#noraise:{en}", z3.Not(cond), line=line, kind="raises")
-            for en_ in sorted(n for n in contract.funcs if n == "ensures" or n.startswith("ensures_") and n != "ensures_raise"):
+            for en_ in sorted(n for n in contract.funcs if n == "ensures" or (n.startswith("ensures_") and not n.startswith("ensures_raise"))):
                 post = it.truthy(it.eval_contract_fn(contract, en_, values, fr.entry_heap, fr.entry_env))
                 path.oblige(f"{fr.qualname}#post" + (":" + en_[8:] if en_ != "ensures" else ""), post, line=line, kind="post")
             frame_obligations(it, fr, contract, False, "normal", line)
@@ -258,9 +258,10 @@ def run_path(repo, registry, func: VFunc, contract, prefix, feas_ms):
             else:
                 path.oblige(f"{fr.qualname}#unexpected:{short}", z3.BoolVal(False), line=line, kind="raises",
                             note=f"exception {ename} escapes but the contract does not allow it")
-            if "ensures_raise" in contract.funcs:
-                post = it.truthy(it.eval_contract_fn(contract, "ensures_raise", values, fr.entry_heap, fr.entry_env))
-                path.oblige(f"{fr.qualname}#post-raise:{short}", post, line=line, kind="post")
+            for er_ in sorted(n for n in contract.funcs if n.startswith("ensures_raise")):
+                post = it.truthy(it.eval_contract_fn(contract, er_, values, fr.entry_heap, fr.entry_env))
+                suffix = er_[len("ensures_raise"):].lstrip("_")
+                path.oblige(f"{fr.qualname}#post-raise{':' + suffix if suffix else ''}:{short}", post, line=line, kind="post")
             frame_obligations(it, fr, contract, True, "raise:" + short, line)
             info["outcome"] = "raise:" + short
     except PathEnd:
@@ -324,7 +325,8 @@ def _path_job_inner(prefix):
     _OBS = path.obs_log
     _CURHEAP = path.heap
     for i, ob in enumerate(path.obligations):
-        rec = {"name": ob.name, "line": ob.line, "kind": ob.kind, "note": ob.note}
+        rec = {"name": ob.name, "line": ob.line, "kind": ob.kind, "note": ob.note,
+               "effects": [e[0] for e in path.effects], "outcome": info["outcome"]}
         res = _solve_one(i)
         rec.update(res)
         if res["status"] == "refuted":
